@@ -10,6 +10,11 @@ CHECKS = {
   text="Theorems exec_fails_exactly_there (a failing run fails at a node of the pipeline, the prefix ran successfully and independently of the suffix, nothing later runs), execFrom_append, construct_error_runs_nothing, resolve_precedence (configuration > context > default > unresolved, from the generated table under precedenceOK), type_gate, probe_passes_data, operation_frames_context (only declared keys may change; an undeclared write is the node's failure), rename/delete/template_touches_only_declared, mapBeh_is_ordered_map (slicers map element-wise in order), sink_passes_through, source_produces — for pipelines of any length and any processor bodies. The model is run next to the real Pipeline(nodes).process on generated pipelines (1..6 nodes quick, 1..8 thorough; every parameter placement; deliberate misfits) over the harness' Herbrand component library and compared on (data, context) or (failing node, error class).",
   note="Trusted: Lean kernel; the table extractor and the pipeline generator/canonicaliser (props/c01.py, props/pipegen.py, props/components.py); error messages are not compared (only node index and class). Sweeps inside pipelines are covered by C03; ContextCollectionType is outside the model.",
   design="§7 C01"),
+ "C02": dict(
+  technique="Lean 4 proof (abstract-interpretation soundness: a forward flow analysis over the C01 execution model, invariant `Abs` preserved by every node kind, induction over the pipeline) + differential run of the real build_pipeline_inspection/validate_pipeline against the reference analysis + real-code oracles on per-node context diffs and value provenance",
+  text="Theorem analysis_sound: for pipelines of any length over a well-formed library, if the reference flow analysis accepts with external requirements req and the initial context holds every key of req (or any superset), then no node is rejected at construction and no node fails with an unresolved parameter, a missing/deleted key, an unknown parameter or the type gate — only the processor's own error remains possible. key_delta_declared: a key can only appear/disappear at a node that is declared to create/suppress it. The real inspection is compared with the reference analysis (verdict and required keys) on generated pipelines including the shapes the property names, and real runs with exactly the required keys and with supersets are checked for flow errors, per-node created/suppressed facts, parameter origins (by value provenance over snapshots) and unknown-parameter names.",
+  note="Trusted: Lean kernel; props/c02.py oracles and generator; nodeWF (operations write the keys they declare; writing slicers are outside the theorem). Origin truth is decided by the real-code oracle only (no Lean theorem). One open known finding (defaulted parameter overridden by a required initial key is reported as 'default').",
+  design="§7 C02"),
  "C08": dict(
   technique="Lean 4 proof over a hand-written executable model (index formula of the Cartesian product via uniform-chunk flatMap indexing; planned size = materialised size by induction over blocks) + differential run real expand_run_space vs compiled Lean model + subprocess cap-promptness runs",
   text="Theorems sortCols_sorted (keys in sorted order, none lost), expandComb_length / expandComb_getElem? / expandComb_keys (product size, last-key-fastest order as an index recursion, every run carries exactly the keys), expandPosN_getElem?, posSize_ok_iff / posSize_mismatch (aligned positions, unequal lengths rejected), blockRuns_length and combineRuns_length (the arithmetic plan equals the number of runs materialised, for any number of blocks), expand_of_plan / expand_ok_le_cap (the max-runs error is raised exactly when the planned total exceeds the cap, decided before anything is materialised), expand_validation_error. The model is tied to /repo by running the real expand_run_space (dataclass door and YAML door, files in four formats with select/rename) and the Lean model on the same generated specs and comparing ordered run lists / error classes; promptness is observed on specs with up to 1.6e13 planned runs under an address-space and time limit.",
